@@ -98,6 +98,18 @@ func NewEnv() *Env {
 	e.podIdx = pi.inf.GetIndexer()
 	e.setIdx = si.inf.GetIndexer()
 	e.pvcIdx = kf.Core().V1().PersistentVolumeClaims().Informer().GetIndexer()
+	api.onEvict = func(what, name string) {
+		switch what {
+		case "set":
+			for _, o := range e.setIdx.List() {
+				e.setIdx.Delete(o)
+			}
+		case "pod":
+			if o, ok, _ := e.podIdx.GetByKey(NS + "/" + name); ok {
+				e.podIdx.Delete(o)
+			}
+		}
+	}
 	return e
 }
 
